@@ -9,6 +9,7 @@ mod exec_inst;
 mod exec_misc;
 mod exec_text;
 mod gen;
+mod gen_inst;
 mod num;
 mod shape;
 
